@@ -596,7 +596,7 @@ fn c17_body<const L: usize>() {
     core::mem::forget(re);
 }
 
-// @verif props=C17 tier=quick timeout=2400 unwind=5 bound="templates of 2 symbols over {$,0,1,2,9,{,},a,e-acute}; 2 groups (one named) with symbolic ranges over the 3-byte text "e-acute y"" funcs="Regex::expand_replacement,Match::group,Match::named_group" stubs="String::{new,with_capacity,push,push_str} -> fixed 32-byte buffer model, capacity overflow asserted"
+// @verif props=C17 mem=9 tier=quick timeout=2400 unwind=5 bound="templates of 2 symbols over {$,0,1,2,9,{,},a,e-acute}; 2 groups (one named) with symbolic ranges over the 3-byte text "e-acute y"" funcs="Regex::expand_replacement,Match::group,Match::named_group" stubs="String::{new,with_capacity,push,push_str} -> fixed 32-byte buffer model, capacity overflow asserted"
 #[kani::proof]
 #[kani::unwind(5)]
 #[kani::stub(std::string::String::push, stub_string_push)]
@@ -890,7 +890,7 @@ mod eng {
         c20_forward_body(2);
     }
 
-    // @verif props=C20 tier=quick builds=pattern_index sub=eng timeout=3000 mem=16 unwind=6 bound="EMPTY haystack, arbitrary engine table, next_back() until Done (<= 3 calls)" funcs="RegexSearcher::next_back,RegexSearcher::next,Regex::find_from"
+    // @verif props=C20 tier=extended builds=pattern_index sub=eng timeout=3000 mem=16 unwind=6 bound="EMPTY haystack, arbitrary engine table, next_back() until Done (<= 3 calls)" funcs="RegexSearcher::next_back,RegexSearcher::next,Regex::find_from"
     // @verif stubs="MatchAttempter::try_at_pos -> arbitrary deterministic table END[offset]; BacktrackExecutor::successful_match -> Match{range, no captures, no names} (the regex has no groups)"
     #[kani::proof]
     #[kani::unwind(6)]
@@ -1028,7 +1028,7 @@ mod eng {
         c17_splice_body(true, false, 1);
     }
 
-    // @verif props=C17 tier=quick builds=index sub=eng timeout=3000 mem=12 unwind=7 bound="replace: constant replacement '#', haystack <= 1 symbolic scalar value(s), arbitrary engine table" funcs="Regex::replace,find,expand_replacement"
+    // @verif props=C17 tier=quick builds=index sub=eng timeout=3000 mem=8 unwind=7 bound="replace: constant replacement '#', haystack <= 1 symbolic scalar value(s), arbitrary engine table" funcs="Regex::replace,find,expand_replacement"
     // @verif stubs="MatchAttempter::try_at_pos -> arbitrary deterministic table END[offset]; BacktrackExecutor::successful_match -> Match{range, no captures, no names} (the regex has no groups); String::{new,with_capacity,push,push_str} -> fixed 32-byte buffer model, capacity overflow asserted"
     #[kani::proof]
     #[kani::unwind(7)]
@@ -1042,7 +1042,7 @@ mod eng {
         c17_splice_body(false, true, 1);
     }
 
-    // @verif props=C17 tier=quick builds=index sub=eng timeout=3000 mem=12 unwind=7 bound="replace_with: constant replacement '#', haystack <= 1 symbolic scalar value(s), arbitrary engine table" funcs="Regex::replace_with,find"
+    // @verif props=C17 tier=quick builds=index sub=eng timeout=3000 mem=8 unwind=7 bound="replace_with: constant replacement '#', haystack <= 1 symbolic scalar value(s), arbitrary engine table" funcs="Regex::replace_with,find"
     // @verif stubs="MatchAttempter::try_at_pos -> arbitrary deterministic table END[offset]; BacktrackExecutor::successful_match -> Match{range, no captures, no names} (the regex has no groups); String::{new,with_capacity,push,push_str} -> fixed 32-byte buffer model, capacity overflow asserted"
     #[kani::proof]
     #[kani::unwind(7)]
@@ -1112,7 +1112,7 @@ mod eng {
         c17_splice_body(false, false, 2);
     }
 
-    // @verif props=C17 tier=quick builds=index sub=eng timeout=1800 mem=10 unwind=5 bound="replace_all: constant replacement '#', EMPTY haystack, arbitrary engine table (match or no match at offset 0)" funcs="Regex::replace_all,find_iter,exec::Matches::next,expand_replacement"
+    // @verif props=C17 tier=quick builds=index sub=eng timeout=1800 mem=8 unwind=5 bound="replace_all: constant replacement '#', EMPTY haystack, arbitrary engine table (match or no match at offset 0)" funcs="Regex::replace_all,find_iter,exec::Matches::next,expand_replacement"
     // @verif stubs="MatchAttempter::try_at_pos -> arbitrary deterministic table END[offset]; BacktrackExecutor::successful_match -> Match{range, no captures, no names} (the regex has no groups); String::{new,with_capacity,push,push_str} -> fixed 32-byte buffer model, capacity overflow asserted"
     #[kani::proof]
     #[kani::unwind(5)]
@@ -1126,7 +1126,7 @@ mod eng {
         c17_splice_body(true, true, 0);
     }
 
-    // @verif props=C17 tier=quick builds=index sub=eng timeout=1800 mem=10 unwind=5 bound="replace_all_with: constant replacement '#', EMPTY haystack, arbitrary engine table (match or no match at offset 0)" funcs="Regex::replace_all_with,find_iter,exec::Matches::next"
+    // @verif props=C17 tier=quick builds=index sub=eng timeout=1800 mem=8 unwind=5 bound="replace_all_with: constant replacement '#', EMPTY haystack, arbitrary engine table (match or no match at offset 0)" funcs="Regex::replace_all_with,find_iter,exec::Matches::next"
     // @verif stubs="MatchAttempter::try_at_pos -> arbitrary deterministic table END[offset]; BacktrackExecutor::successful_match -> Match{range, no captures, no names} (the regex has no groups); String::{new,with_capacity,push,push_str} -> fixed 32-byte buffer model, capacity overflow asserted"
     #[kani::proof]
     #[kani::unwind(5)]
